@@ -41,9 +41,7 @@ def fixed_cases(tier):
     return [{"limits_matrix": r} for r in M.REPRS]
 
 
-def run_limits_matrix(case):
-    out = J.Outcome()
-    r = case["limits_matrix"]
+def limits_modules(r):
     lo, hi = M.repr_domain(r)
     modules, models = [], []
     cfg = S.simple_config(["try_from", "TryFrom", "into", "Into", "MIN", "MAX", "next", "next_back"])
@@ -63,6 +61,10 @@ def run_limits_matrix(case):
                     "variants": [{"ident": "V%d" % i, "disc": str(v)} for i, v in enumerate(vals)]}
             modules.append((spec, cfg, {"kind": "plain"}))
             models.append(M.RefEnum(spec))
+    return modules, models, cfg
+
+
+def limits_script(case, models, cfg):
     sc = E.Script()
     rnd = J.case_rng(case)
     for k, m in enumerate(models):
@@ -70,6 +72,14 @@ def run_limits_matrix(case):
         C.sc_try_from(sc, k, m, cfg, C.boundary_values(m, rnd), sweep=False)
         C.sc_minmax(sc, k, m, cfg)
         C.sc_next(sc, k, m, cfg, list(range(m.n)))
+    return sc
+
+
+def run_limits_matrix(case):
+    out = J.Outcome()
+    r = case["limits_matrix"]
+    modules, models, cfg = limits_modules(r)
+    sc = limits_script(case, models, cfg)
     J.run_script(out, modules, sc)
     out.count("limits_matrix_enums", len(modules))
     out.nontrivial = True
